@@ -18,6 +18,7 @@ OWNERS = {
     'C07': ['bystander', 'noninplace', 'inplace', 'newtable',
             '*.refused_changed', '*.receiver_changed', '*.input_changed',
             '*.source_changed', '*.returned_self', '*.inplace_returns_other',
+            '*.inplace_raised',
             '*.returned_input', 'perturb.copy'],
     'C08': ['filter', 'remove_empty', 'head', 'perturb.filterall'],
     'C09': ['merge'],
